@@ -45,14 +45,14 @@ var codecPools = map[string][]string{
 	"plain":      {"a", "hello world", "Zz9"},
 	"empty":      {""},
 	"ws-only":    {" ", "  ", "\t", " \t "},
-	"newline":    {"\n", "a\nb", "\n\n", "a\n", "\na", "a\n\n", "a\r\nb", "line1\n  indented\nline3\n"},
+	"newline":    {"\n", "a\nb", "\n\n", "a\n", "\na", "a\n\n", "a\r\nb", "line1\n  indented\nline3\n", "\n a", " a\nb", "\n  a\n b"},
 	"yaml-bool":  {"true", "yes", "No", "on", "OFF", "y", "n", "~", "null", "Null", "NULL", "False", "TRUE"},
 	"yaml-num":   {"1", "0x1F", "1e3", "1_000", ".5", "+1", "0o17", "-0", "1.0", ".inf", "-.Inf", ".NaN", "0b101", "190:20:30", "012", "1.", "+.5"},
 	"yaml-date":  {"2001-12-14", "2001-12-14t21:59:43.10-05:00", "2001-12-14 21:59:43.10 -5"},
-	"doc-marker": {"---", "...", "--- a", "---\na", "a\n---\nb", "a\n...\n"},
+	"doc-marker": {"---", "...", "--- a", "---\na", "a\n---\nb", "a\n...\n", "...a", "... a", "a..."},
 	"ind-first":  {"- a", "? a", ": a", "# a", "& a", "* a", "! a", "| a", "> a", "' a", "\" a", "% a", "@ a", "` a", "{a", "[a", "]a", "}a", ",a", "-", "?", ":", "#", "&x", "*x", "!t", "|", ">", "!!str a", "<<"},
 	"ind-inner":  {"a: b", "a #b", "a - b", "a:b", "a, b", "a [b] c", "a {b}", "a: ", "a\t#b"},
-	"ind-last":   {"a:", "a-", "a#", "a ", "a\t", "a,", "a]", "a}", "a |"},
+	"ind-last":   {"a:", "a-", "a#", "a ", "a\t", "a,", "a]", "a}", "a |", "a<<", "a <<"},
 	"control":    {"\x00", "\x01", "a\x1fb", "\x7f", "\u0085", "\x1b[0m", "\b", "\f", "\v"},
 	"nonbmp":     {"😀", "𝄞", "a😀b", "\U0010FFFF"},
 	"linesep":    {"\u2028", "\u2029", "\ufeff", "a\u2028b", "\ufeffa", "\u00a0", "\u200b"},
@@ -66,13 +66,14 @@ var codecPools = map[string][]string{
 	"high-prec": {"0.1234567890123456789012345678901234567890", "3.141592653589793238462643383279", "1.0000000000000000000000000001"},
 	"gt-int64":  {"9223372036854775808", "123456789012345678901234567890", "-9223372036854775809", "18446744073709551616"},
 	"float-int": {"1.0", "100.0", "1e2", "-3.0"},
+	"exp-forms": {"1e+21", "1e-7", "6E+23", "-2e+10", "1e21", "0.0000001", "1.5e+300", "12e-3"},
 }
 var codecKeyPools = map[string][]string{
 	"plain":     {"k", "key2"},
 	"empty":     {""},
 	"yaml-bool": {"true", "null", "yes", "No", "~", "on"},
 	"yaml-num":  {"1", "1.5", "0x1", "1e3", "-0"},
-	"ind-first": {"- a", "? b", "#c", "&d", "*e", "!f", "[g", "{h", "|i", ">j", "'k", "\"l", "%m", "@n", "-"},
+	"ind-first": {"- a", "? b", "#c", "&d", "*e", "!f", "[g", "{h", "|i", ">j", "'k", "\"l", "%m", "@n", "-", "...k", "<<", "k<<"},
 	"ind-inner": {"a: b", "a #b", "a b", "a:b"},
 	"unicode":   {"é", "😀", "日本"},
 	"ws":        {" ", " a", "a ", "a\nb", "\t"},
@@ -434,6 +435,47 @@ func hasLoneNewline(d dval) bool {
 	for _, e := range d.Items {
 		if hasLoneNewline(e) {
 			return true
+		}
+	}
+	return false
+}
+
+// anyStr / anyKey report whether some string value / object key of d satisfies pred.
+func anyStr(d dval, pred func(string) bool) bool {
+	if d.Kind == "str" && pred(d.S) {
+		return true
+	}
+	for _, e := range d.Items {
+		if anyStr(e, pred) {
+			return true
+		}
+	}
+	return false
+}
+
+func anyKey(d dval, pred func(string) bool) bool {
+	for _, k := range d.Keys {
+		if pred(k) {
+			return true
+		}
+	}
+	for _, e := range d.Items {
+		if anyKey(e, pred) {
+			return true
+		}
+	}
+	return false
+}
+
+// multi-line text whose first non-empty line starts with a space: a YAML block scalar needs an
+// explicit indentation indicator for it
+func leadingSpaceBlock(s string) bool {
+	if !strings.Contains(s, "\n") {
+		return false
+	}
+	for _, l := range strings.Split(s, "\n") {
+		if l != "" {
+			return strings.HasPrefix(l, " ")
 		}
 	}
 	return false
@@ -819,6 +861,18 @@ func checkCodec(r *kit.Run, family string) {
 			if strings.HasPrefix(problem, "TOOL:") {
 				r.Fatal("%s (document %s)", problem, truth.cue())
 			}
+			if problem != "" && family != "json" && anyStr(truth, leadingSpaceBlock) {
+				r.Violation("class yaml-block-scalar-leading-space", fmt.Sprintf("%v on %s: %s", ops, truth.cue(), problem), map[string]any{"document_cue": truth.cue(), "behaviour": ops})
+				continue
+			}
+			if problem != "" && family != "json" && anyKey(truth, func(k string) bool { return strings.HasSuffix(k, "<<") }) {
+				r.Violation("class yaml-key-ending-in-merge-indicator", fmt.Sprintf("%v on %s: %s", ops, truth.cue(), problem), map[string]any{"document_cue": truth.cue(), "behaviour": ops})
+				continue
+			}
+			if dots := func(k string) bool { return strings.HasPrefix(k, "...") && k != "..." }; problem != "" && family != "json" && (anyKey(truth, dots) || anyStr(truth, dots)) {
+				r.Violation("class yaml-leading-dots", fmt.Sprintf("%v on %s: %s", ops, truth.cue(), problem), map[string]any{"document_cue": truth.cue(), "behaviour": ops})
+				continue
+			}
 			if problem != "" && family != "json" && hasLoneNewline(truth) {
 				r.Violation("class yaml-lone-newline", fmt.Sprintf("%v on %s: %s", ops, truth.cue(), problem), map[string]any{"document_cue": truth.cue(), "behaviour": ops})
 				continue
@@ -865,6 +919,7 @@ func checkCodec(r *kit.Run, family string) {
 			}
 		}
 		r.Add("json_validity_cases", len(invalidJSON)+len(validJSON))
+		checkJSONText(r)
 	}
 	// canary: the comparison must notice a changed string, number kind and key order
 	a := dval{Kind: "obj", Keys: []string{"a", "b"}, Items: []dval{{Kind: "str", S: "1"}, {Kind: "num", Num: "1.0"}}}
